@@ -223,8 +223,10 @@ C14_ExitClass ==
     (intCount >= 1 /\ phase # "running" /\ ~C14xC10) => (phase = "raised" /\ exc # <<>> /\ exc[1] = "KeyboardInterrupt")
 C14_NoStartAfterInterrupt_Step ==
     intCount >= 1 => slot' \subseteq slot
+(* nothing is still inside run() when run_tasks leaves after a single interrupt (the slot bookkeeping of the coordinator is *)
+(* not the measure: an interrupt may land between a hook and the step it reports)                                         *)
 C14_RunningFinish ==
-    (intCount = 1 /\ phase # "running" /\ ~C14xC10) => slot = {}
+    (intCount = 1 /\ phase # "running" /\ ~C14xC10) => inrun = {}
 
 C14_RunningCached ==
     (intCount = 1 /\ obsCache /\ cfg.backend # "serial" /\ ~C14xC10) =>
